@@ -448,18 +448,8 @@ func nodeType2(interp *Interpreter, sc *scope, n *node, seen []*node) (t *itype,
 		switch v := c0.rval; {
 		case v.IsValid():
 			// Size if defined by a constant literal value.
-			if isConstantValue(v.Type()) {
-				c := v.Interface().(constant.Value)
-				length = constToInt(c)
-			} else {
-				switch v.Type().Kind() {
-				case reflect.Int, reflect.Int8, reflect.Int16, reflect.Int32, reflect.Int64:
-					length = int(v.Int())
-				case reflect.Uint, reflect.Uint8, reflect.Uint16, reflect.Uint32, reflect.Uint64, reflect.Uintptr:
-					length = int(v.Uint())
-				default:
-					return nil, c0.cfgErrorf("non integer constant %v", v)
-				}
+			if length, err = arrayLength(c0, v); err != nil {
+				return nil, err
 			}
 		case c0.kind == ellipsisExpr:
 			// [...]T expression, get size from the length of composite array.
@@ -477,14 +467,15 @@ func nodeType2(interp *Interpreter, sc *scope, n *node, seen []*node) (t *itype,
 			if sym.kind != constSym {
 				return nil, c0.cfgErrorf("non-constant array bound %q", c0.ident)
 			}
-			if sym.typ == nil || !isInt(sym.typ.TypeOf()) || !sym.rval.IsValid() {
+			if sym.typ == nil || !sym.rval.IsValid() {
 				incomplete = true
 				break
 			}
-			length = int(vInt(sym.rval))
+			if length, err = arrayLength(c0, sym.rval); err != nil {
+				return nil, err
+			}
 		default:
 			// Size is defined by a numeric constant expression.
-			var ok bool
 			if _, err := interp.cfg(c0, sc, sc.pkgID, sc.pkgName); err != nil {
 				if strings.Contains(err.Error(), " undefined: ") {
 					incomplete = true
@@ -495,13 +486,8 @@ func nodeType2(interp *Interpreter, sc *scope, n *node, seen []*node) (t *itype,
 			if !c0.rval.IsValid() {
 				return nil, c0.cfgErrorf("undefined array size")
 			}
-			if length, ok = c0.rval.Interface().(int); !ok {
-				v, ok := c0.rval.Interface().(constant.Value)
-				if !ok {
-					incomplete = true
-					break
-				}
-				length = constToInt(v)
+			if length, err = arrayLength(c0, c0.rval); err != nil {
+				return nil, err
 			}
 		}
 		val, err := nodeType2(interp, sc, n.child[1], seen)
@@ -2358,6 +2344,34 @@ func constToInt(c constant.Value) int {
 	}
 	i, _ := constant.Int64Val(c)
 	return int(i)
+}
+
+// arrayLength returns the array length defined by the constant v, which must
+// be non-negative and representable by a value of type int.
+func arrayLength(n *node, v reflect.Value) (int, error) {
+	if c, ok := v.Interface().(constant.Value); ok {
+		if c = constant.ToInt(c); c.Kind() != constant.Int {
+			return 0, n.cfgErrorf("array length %v must be integer", v)
+		}
+		i, ok := constant.Int64Val(c)
+		if !ok {
+			return 0, n.cfgErrorf("invalid array length %v", v)
+		}
+		v = reflect.ValueOf(i)
+	}
+	switch v.Kind() {
+	case reflect.Int, reflect.Int8, reflect.Int16, reflect.Int32, reflect.Int64:
+		if i := int(v.Int()); i >= 0 && int64(i) == v.Int() {
+			return i, nil
+		}
+	case reflect.Uint, reflect.Uint8, reflect.Uint16, reflect.Uint32, reflect.Uint64, reflect.Uintptr:
+		if i := int(v.Uint()); i >= 0 && uint64(i) == v.Uint() {
+			return i, nil
+		}
+	default:
+		return 0, n.cfgErrorf("array length %v must be integer", v)
+	}
+	return 0, n.cfgErrorf("invalid array length %v", v)
 }
 
 func constToString(v reflect.Value) string {
